@@ -1007,16 +1007,18 @@ func (f *Flow) ReachRefined2(from Pt, obj types.Object, wantNil bool, isBool boo
 		b     *cfg.Block
 		i     int
 		fresh string
+		flags string // local flags assigned a constant on the path: "pos:name=T;…"
 	}
 	seen := map[key]bool{}
 	prev := map[key]key{}
 	type item struct {
 		pt    Pt
 		fresh string
+		flags string
 	}
 	var queue []item
-	push := func(from key, hasFrom bool, to Pt, fresh string) {
-		k := key{to.B, to.I, fresh}
+	push := func(from key, hasFrom bool, to Pt, fresh string, flags string) {
+		k := key{to.B, to.I, fresh, flags}
 		if seen[k] {
 			return
 		}
@@ -1024,15 +1026,58 @@ func (f *Flow) ReachRefined2(from Pt, obj types.Object, wantNil bool, isBool boo
 		if hasFrom {
 			prev[k] = from
 		}
-		queue = append(queue, item{to, fresh})
+		queue = append(queue, item{to, fresh, flags})
+	}
+	flagKey := func(v *types.Var) string { return itoa(int(v.Pos())) + ":" + v.Name() }
+	flagVal := func(flags string, v *types.Var) (bool, bool) {
+		k := flagKey(v)
+		for _, e := range strings.Split(flags, ";") {
+			if strings.HasPrefix(e, k+"=") {
+				return e[len(k)+1:] == "T", true
+			}
+		}
+		return false, false
+	}
+	flagSet := func(flags string, v *types.Var, val, known bool) string {
+		k := flagKey(v)
+		var out []string
+		for _, e := range strings.Split(flags, ";") {
+			if e != "" && !strings.HasPrefix(e, k+"=") {
+				out = append(out, e)
+			}
+		}
+		if known {
+			if val {
+				out = append(out, k+"=T")
+			} else {
+				out = append(out, k+"=F")
+			}
+		}
+		sort.Strings(out)
+		return strings.Join(out, ";")
 	}
 	expand := func(it item, self key, has bool) {
 		pt := it.pt
 		if pt.I < len(pt.B.Nodes) {
-			push(self, has, Pt{pt.B, pt.I + 1}, it.fresh)
+			push(self, has, Pt{pt.B, pt.I + 1}, it.fresh, it.flags)
 			return
 		}
 		skip := map[int]bool{}
+		if it.flags != "" {
+			if cond, isCase := f.Cond(pt.B); cond != nil && !isCase {
+				for si := 0; si < 2; si++ {
+					for _, fact := range atomsOnEdge(cond, si) {
+						if id, isID := ast.Unparen(fact.E).(*ast.Ident); isID {
+							if v, isVar := f.Info.Uses[id].(*types.Var); isVar {
+								if val, known := flagVal(it.flags, v); known && val != fact.T {
+									skip[si] = true
+								}
+							}
+						}
+					}
+				}
+			}
+		}
 		if it.fresh != "" {
 			if cond, isCase := f.Cond(pt.B); cond != nil && !isCase {
 				for si := 0; si < 2; si++ {
@@ -1059,7 +1104,7 @@ func (f *Flow) ReachRefined2(from Pt, obj types.Object, wantNil bool, isBool boo
 			if skip[i] || (avoidEdge != nil && avoidEdge(pt.B, i)) {
 				continue
 			}
-			push(self, has, Pt{s, 0}, it.fresh)
+			push(self, has, Pt{s, 0}, it.fresh, it.flags)
 		}
 	}
 	// transfer of the refined set over a node
@@ -1132,12 +1177,37 @@ func (f *Flow) ReachRefined2(from Pt, obj types.Object, wantNil bool, isBool boo
 		}
 		return enc(ns)
 	}
+	// constant assignments to local flags
+	flagTransfer := func(flags string, n ast.Node) string {
+		as, ok := n.(*ast.AssignStmt)
+		if !ok {
+			return flags
+		}
+		for i, l := range as.Lhs {
+			id, isID := ast.Unparen(l).(*ast.Ident)
+			if !isID {
+				continue
+			}
+			v, isVar := objOf(f.Info, id).(*types.Var)
+			if !isVar || v.IsField() || !isBoolType(v.Type()) {
+				continue
+			}
+			if len(as.Lhs) == len(as.Rhs) {
+				if tv, has := f.Info.Types[as.Rhs[i]]; has && tv.Value != nil && tv.Value.Kind() == constant.Bool {
+					flags = flagSet(flags, v, constant.BoolVal(tv.Value), true)
+					continue
+				}
+			}
+			flags = flagSet(flags, v, false, false)
+		}
+		return flags
+	}
 	start := enc(oset{obj: true})
-	expand(item{from, start}, key{}, false)
+	expand(item{from, start, ""}, key{}, false)
 	for len(queue) > 0 {
 		it := queue[0]
 		queue = queue[1:]
-		self := key{it.pt.B, it.pt.I, it.fresh}
+		self := key{it.pt.B, it.pt.I, it.fresh, it.flags}
 		if avoid != nil && avoid(it.pt) {
 			continue
 		}
@@ -1160,6 +1230,7 @@ func (f *Flow) ReachRefined2(from Pt, obj types.Object, wantNil bool, isBool boo
 			return path, true
 		}
 		it.fresh = transfer(it.fresh, it.pt.Node())
+		it.flags = flagTransfer(it.flags, it.pt.Node())
 		expand(it, self, true)
 	}
 	return nil, false
